@@ -907,6 +907,26 @@ def _is_escape_store(t):
     return any(isinstance(n, ast.Attribute) and n.attr == "zero_width_escapes" for n in ast.walk(t))
 
 
+def ml_dwidth(case):
+    return [f"dwidth {enc_str(t)}" for t in case["ops"]]
+
+
+def il_dwidth(case):
+    from prompt_toolkit.layout.screen import get_display_width
+    return [str(get_display_width(t)) for t in case["ops"]]
+
+
+def or_dwidth(case):
+    """the scroll measure must agree with what _copy_body draws (sum of the cell widths)"""
+    from prompt_toolkit.layout.screen import get_display_width
+    for t in case["ops"]:
+        drawn = sum(Char(c, "").width for c in t)
+        if get_display_width(t) != drawn:
+            return [{"signature": "get_display_width | differs from the width of the drawn cells",
+                     "msg": f"{t!r}: {get_display_width(t)} != {drawn}"}]
+    return []
+
+
 def ml_tok(case):
     return [f"tok {enc_str(case['s'])}"]
 
@@ -942,6 +962,7 @@ KINDS = {
     "print": (ml_print, il_print, or_print),
     "render": (ml_render, il_render, or_render),
     "tok": (ml_tok, il_tok, lambda c: []),
+    "dwidth": (ml_dwidth, il_dwidth, or_dwidth),
     "e2e_prompt": (lambda c: [], lambda c: [], e2e_prompt),
     "e2e_full": (lambda c: [], lambda c: [], e2e_full),
     "ast": (lambda c: [], lambda c: [], lambda c: ast_scan()),
@@ -1019,6 +1040,11 @@ def cases(tier, rng):
         else:
             s = ""
         yield {"kind": "str", "s": s, "style": rng.choice(STYLES)}
+    # ---- get_display_width (the horizontal-scroll measure of _copy_body)
+    for lo in range(0, 0x100, 64):
+        yield {"kind": "dwidth", "ops": [chr(i) for i in range(lo, lo + 64)]}
+    for _ in range(60 if quick else 2000):
+        yield {"kind": "dwidth", "ops": [rand_hostile(rng, rng.randrange(0, 8)) for _ in range(8)]}
     # ---- Vt100_Output.write
     yield {"kind": "write", "ops": ["\x1b\x1b", "", "a\x1bb\x1b", "\x1b[2J\x1b]0;t\x07"]}
     for lo in range(0, 0x100, 32):
@@ -1169,7 +1195,7 @@ def case_text(case):
         return "".join(chr(cp) for cp in list(chunk_cps(case))[:300] if not is_sur(cp))
     if k in ("str", "tok"):
         return case["s"]
-    if k == "write":
+    if k in ("write", "dwidth"):
         return "".join(case["ops"])
     if k == "print":
         return "".join(t for _, t in case["frags"])
